@@ -256,8 +256,9 @@ func (c *Ctx) Fail(kind, site string, in interface{}, expected, actual, detail s
 	if err != nil {
 		raw, _ = json.Marshal(fmt.Sprintf("%#v", in))
 	}
-	f := Failure{Kind: kind, Site: site, Input: raw, Expected: clip(expected), Actual: clip(actual), Detail: clip(detail), Index: c.Index, In: in}
-	c.classify(&f)
+	f := Failure{Kind: kind, Site: site, Input: raw, Expected: expected, Actual: actual, Detail: detail, Index: c.Index, In: in}
+	c.classify(&f) // matchers see the unclipped texts
+	f.Expected, f.Actual, f.Detail = clip(f.Expected), clip(f.Actual), clip(f.Detail)
 	c.mu.Lock()
 	defer c.mu.Unlock()
 	if f.Finding != "" {
